@@ -252,3 +252,126 @@ def rule_r26_ranges(ctx, prog, rule="R26", bodies=None):
                    what="strategies differ when both neighbours coincide")
             n_ok += 2
     ctx.floor(rule, n_ok, floor, "range obligations of the interpolation formulas")
+
+
+# ======================================================================================= C19: laws of the index functions
+
+def monotone(t, var, nonneg):
+    """monotonicity of a T-term in the symbol `var` by typing: 'inc' | 'dec' | 'const' | None (unknown).
+    nonneg(term) → True if the term is known ≥ 0 (used for constant factors)"""
+    k = t[0]
+    if k == "sym":
+        return "inc" if t[1] == var else "const"
+    if k == "num":
+        return "const"
+    if k == "conv":
+        return monotone(t[2], var, nonneg)
+    if k == "fn" and t[1] in ("floor", "ceil", "round", "sqrt", "exp", "ln"):
+        return monotone(t[2], var, nonneg)
+    if k == "neg":
+        m = monotone(t[1], var, nonneg)
+        return {"inc": "dec", "dec": "inc", "const": "const"}.get(m)
+    if k in ("add", "sub"):
+        a, c = monotone(t[1], var, nonneg), monotone(t[2], var, nonneg)
+        if k == "sub":
+            c = {"inc": "dec", "dec": "inc", "const": "const"}.get(c)
+        if a is None or c is None:
+            return None
+        if a == "const":
+            return c
+        if c == "const" or a == c:
+            return a
+        return None
+    if k == "mul":
+        a, c = monotone(t[1], var, nonneg), monotone(t[2], var, nonneg)
+        if a == "const" and c == "const":
+            return "const"
+        if a == "const" and c is not None and nonneg(t[1]):
+            return c
+        if c == "const" and a is not None and nonneg(t[2]):
+            return a
+        return None
+    if k == "div":
+        a, c = monotone(t[1], var, nonneg), monotone(t[2], var, nonneg)
+        if c == "const" and a is not None and nonneg(t[2]):
+            return a
+        return None
+    return None
+
+
+def rule_c19_indexes(ctx, prog, rule="R27"):
+    """lower_index / higher_index are floor / ceil of ONE quantity that is non-decreasing in q, 0 at q = 0 and len−1 at q = 1"""
+    from .terms import sympy_equal, subst_t, canon_op
+    q, n = ("sym", "q"), ("sym", "len")
+    lob = prog.find("quantile::interpolate::lower_index")
+    hib = prog.find("quantile::interpolate::higher_index")
+    frb = prog.find("quantile::interpolate::float_quantile_index_fraction", required=False)
+    try:
+        tl = fn_term(prog, lob, {1: q, 2: n})
+        th = fn_term(prog, hib, {1: q, 2: n})
+        tf = fn_term(prog, frb, {1: q, 2: n}) if frb is not None else None
+    except Unrecognised as ex:
+        ctx.ob(rule, "indexes/terms", False, lob.where(), "anchor not recognised: %s" % ex, what="anchor not recognised")
+        return
+    ok_shape = tl[0] == "fn" and tl[1] == "floor" and th[0] == "fn" and th[1] == "ceil" and canon_op(tl[2]) == canon_op(th[2])
+    ctx.ob(rule, "indexes/floor-ceil-of-one-quantity", ok_shape, lob.where(),
+           "lower_index = floor(x), higher_index = ceil(x) with the same x = %s: they agree exactly when x is integral, and then every "
+           "strategy is applied to one and the same looked-up element" % show(tl[2]) if ok_shape else
+           "lower_index = %s and higher_index = %s are not floor/ceil of one quantity" % (show(tl), show(th)),
+           what="strategies need not coincide at integral positions")
+    if not ok_shape:
+        return
+    x = tl[2]
+    if tf is not None:
+        okf = tf[0] == "fn" and tf[1] == "fract" and canon_op(tf[2]) == canon_op(x)
+        ctx.ob(rule, "indexes/fraction-of-the-same-quantity", okf, frb.where(),
+               "the interpolation fraction is fract(x) of the same x" if okf else "fraction = %s is not fract of %s" % (show(tf), show(x)),
+               what="fraction and neighbours computed from different positions")
+    # lanes have length ≥ 1 on every success path (EmptyInput otherwise: C17), so len − 1 ≥ 0
+    nonneg = lambda t: t == ("sub", n, ("num", 1)) or (t[0] == "num" and t[1] >= 0) or t == n
+    m = monotone(x, "q", nonneg)
+    ctx.ob(rule, "indexes/non-decreasing-in-q", m in ("inc", "const"), lob.where(),
+           "x = %s is non-decreasing in q (len − 1 ≥ 0), and floor/ceil preserve that: both neighbour positions are non-decreasing in q" % show(x)
+           if m in ("inc", "const") else "monotonicity of %s in q could not be established (%s)" % (show(x), m),
+           what="neighbour positions not monotone in q")
+    try:
+        res = sympy_equal([(subst_t(x, {"q": ("num", 0)}), ("num", 0)), (subst_t(x, {"q": ("num", 1)}), ("sub", n, ("num", 1)))])
+        ok0, ok1 = res[0]["equal"] is True, res[1]["equal"] is True
+    except Unrecognised as ex:
+        ok0 = ok1 = False
+    ctx.ob(rule, "indexes/q0-is-first", ok0, lob.where(), "x(q = 0) = 0: both neighbours are position 0, the lane minimum (C02)" if ok0 else
+           "x(q = 0) is not 0", what="q = 0 does not select the minimum")
+    ctx.ob(rule, "indexes/q1-is-last", ok1, lob.where(), "x(q = 1) = len − 1: both neighbours are the last position, the lane maximum (C02)" if ok1 else
+           "x(q = 1) is not len − 1", what="q = 1 does not select the maximum")
+
+
+def rule_c19_fraction_monotone(ctx, prog, rule="R27"):
+    """at fixed neighbours lower ≤ higher every strategy is non-decreasing in the interpolation fraction"""
+    lo, hi, q, n = ("sym", "lower"), ("sym", "higher"), ("sym", "q"), ("sym", "len")
+
+    def strip_conv(t):
+        if not isinstance(t, tuple):
+            return t
+        if t[0] == "conv":
+            return strip_conv(t[2])
+        return tuple(strip_conv(x) if isinstance(x, tuple) else x for x in t)
+
+    def defract(t):
+        if not isinstance(t, tuple):
+            return t
+        if t[0] == "fn" and t[1] == "fract":
+            return ("sym", "FR")
+        return tuple(defract(x) if isinstance(x, tuple) else x for x in t)
+
+    nonneg = lambda t: strip_conv(t) == ("sub", hi, lo) or (t[0] == "num" and t[1] >= 0)
+    for s_ in ("Lower", "Higher", "Midpoint", "Linear"):
+        b = prog.find("<quantile::interpolate::%s as quantile::interpolate::Interpolate<T>>::interpolate" % s_)
+        try:
+            t = fn_term(prog, b, {1: lo, 2: hi, 3: q, 4: n}, kernel_cls=TypedKernel)
+        except Unrecognised as ex:
+            ctx.ob(rule, "%s/fraction-monotone" % s_, False, b.where(), "anchor not recognised: %s" % ex, what="anchor not recognised")
+            continue
+        m = monotone(defract(t), "FR", nonneg)
+        ctx.ob(rule, "%s/fraction-monotone" % s_, m in ("inc", "const"), b.where(),
+               "`%s` is %s in the fraction for lower ≤ higher" % (rshow(t), "independent of" if m == "const" else "non-decreasing") if m in ("inc", "const") else
+               "`%s`: monotonicity in the fraction not established" % rshow(t), what="quantile can decrease while q increases inside a segment")
